@@ -1,4 +1,5 @@
 import Rtsp.Generated.Facts.Time
+import Rtsp.Model.F64
 /-
 Model of /repo/pkg/ntp/ntp.go  (Encode, Decode).
 
@@ -13,9 +14,10 @@ Encode, as written in Go:
     return secs<<32 | fractional
 
 The float path of `fractional` is modelled by exact integer rounding (`roundDiv`).  Why that is the
-same function (argument, not a Lean theorem; validated exhaustively by the correspondence harness,
+same function (the argument below is a Lean theorem for the binary64 model `F64`:
+`Ntp.encFracFloat_eq`, Proofs/NtpFloat.lean; for the real code it is validated by the correspondence harness,
 which compares all 10^9 possible values of `ntp%1000000000` against this model in the thorough tier
-and 2·10^7 of them in the quick tier):
+and 2·10^7 of them, plus ~10^6 random and boundary instants, in the quick tier):
   * `n = ntp % 10^9 < 2^30`, so `n·2^32` has at most 30 significant bits: `float64(n·2^32)` is exact.
   * the real quotient `q = n·2^32/10^9 = n·2^23/5^9` is a multiple of `5^-9`; a half-integer is an
     odd multiple of `1/2`, so `|q − h| ≥ 1/(2·5^9) = 2^-21.9` for every half-integer `h`.
@@ -48,6 +50,12 @@ def ntpNanos (unixNs : Int) : Nat := (toU64 unixNs + Time.ntpEpochOffsetEnc * na
 
 /-- the fractional field computed by `Encode` for `n = ntp % 10^9`. -/
 def encFrac (n : Nat) : Nat := roundDiv (n * two32) nanos
+
+/-- the fractional field exactly as the Go expression computes it, on the binary64 model:
+`uint64(math.Round(float64(n*(1<<32)) / 1000000000))`.  `Proofs/NtpFloat.lean` proves
+`encFracFloat n = encFrac n` for every `n < 10^9`; the harness compares both with the real code. -/
+def encFracFloat (n : Nat) : Nat :=
+  F64.roundHalfAway (F64.div (F64.ofNat (n * two32)) (F64.ofNat nanos))
 
 /-- `Encode`: `secs<<32 | fractional` on uint64. -/
 def encode (unixNs : Int) : Nat :=
